@@ -4,11 +4,28 @@
 use crate::core::Ctx;
 use std::path::PathBuf;
 
+pub mod c01;
+pub mod c02;
+pub mod c04;
+pub mod c05;
+pub mod c06;
+pub mod c07;
+pub mod c08;
 pub mod c28;
+pub mod suite;
 
 pub type RunFn = fn(Ctx, Option<PathBuf>) -> i32;
 
-pub const REGISTRY: &[(&str, RunFn)] = &[("C28", c28::run)];
+pub const REGISTRY: &[(&str, RunFn)] = &[
+    ("C01", c01::run),
+    ("C02", c02::run),
+    ("C04", c04::run),
+    ("C05", c05::run),
+    ("C06", c06::run),
+    ("C07", c07::run),
+    ("C08", c08::run),
+    ("C28", c28::run),
+];
 
 /// Hidden subcommands (`lv __xyz ...`) used by checks that need a fresh
 /// process linking the lalrpop library.
